@@ -11,7 +11,7 @@
    (nor in is_single_peaked) - sp_decide_set_ext / sp_decide_reorder make "any multiplicities, stored in any order"
    precise. *)
 From Coq Require Import List NArith Bool Permutation.
-From PrefVerif Require Import Lib.Val Lib.Contig Model.SP Proofs.SP.
+From PrefVerif Require Import Lib.Val Lib.Contig Model.SP Model.ELO Proofs.SP Proofs.ELO.
 Import ListNotations.
 
 (* ---- "True exactly when the alternatives can be arranged on a line so that, for every voter and every k, the
@@ -45,6 +45,32 @@ Theorem C03 : forall (alts : list N) (rs : list ranking) (verdict : bool) (axis 
     forall r, In r rs -> forall k, contiguous (firstn k r) axis)).
 Proof. exact Proofs.SP.C03_relation. Qed.
 Print Assumptions C03.
+
+(* ---- the ALGORITHM: Model/ELO.v mirrors is_single_peaked (Escoffier-Lang-Ozturk) statement by statement; the
+        harness checks on every case, at every size, that the implementation's verdict equals the mirror's.
+        For every well-formed strict profile (NoDup alts, every vote a permutation of alts, at least one vote):
+        the while loop stops within num_alternatives rounds, no Python error (IndexError / ValueError, in particular
+        the two "We should never have ended up here" branches) is reachable, and a positive answer comes with an
+        axis that lists every alternative exactly once and for which every voter is single-peaked. ---- *)
+Theorem elo_terminates : forall (alts : list N) (prefs : list ranking),
+  NoDup alts /\ Forall (fun v => Permutation alts v) prefs /\ prefs <> [] ->
+  elo alts prefs <> Err OutOfFuel.
+Proof. exact Proofs.ELO.elo_terminates. Qed.
+Print Assumptions elo_terminates.
+
+Theorem elo_no_error : forall (alts : list N) (prefs : list ranking),
+  NoDup alts /\ Forall (fun v => Permutation alts v) prefs /\ prefs <> [] ->
+  exists verdict axis, elo alts prefs = Ok (verdict, axis).
+Proof. exact Proofs.ELO.elo_no_error. Qed.
+Print Assumptions elo_no_error.
+
+Theorem elo_sound : forall (alts : list N) (prefs : list ranking) (axis : list N),
+  NoDup alts /\ Forall (fun v => Permutation alts v) prefs /\ prefs <> [] ->
+  elo alts prefs = Ok (true, axis) ->
+  (NoDup axis /\ forall a, In a axis <-> In a alts) /\
+  forall r, In r prefs -> forall k, contiguous (firstn k r) axis.
+Proof. exact Proofs.ELO.elo_sound_spec. Qed.
+Print Assumptions elo_sound.
 
 (* ---- heredity: a single-peaked profile stays single-peaked on every subset of the alternatives; hence a small
         refuted core refutes the whole profile ---- *)
